@@ -557,23 +557,12 @@ Require Verif.Tie.PypiRange.
 Require Verif.Tie.Rpm.
 Require Verif.Tie.RpmRange.
 Require Verif.Tie.Semver.
-Require Verif.Tie.Loops.Alpine.
-Require Verif.Tie.Loops.Cargo.
-Require Verif.Tie.Loops.CargoRange.
-Require Verif.Tie.Loops.Debian.
-Require Verif.Tie.Loops.DebianRange.
-Require Verif.Tie.Loops.Gem.
-Require Verif.Tie.Loops.Golang.
-Require Verif.Tie.Loops.GolangRange.
-Require Verif.Tie.Loops.Maven.
-Require Verif.Tie.Loops.Npm.
-Require Verif.Tie.Loops.Nuget.
-Require Verif.Tie.Loops.NugetRange.
-Require Verif.Tie.Loops.Pypi.
-Require Verif.Tie.Loops.PypiRange.
-Require Verif.Tie.Loops.Rpm.
-Require Verif.Tie.Loops.RpmRange.
-Require Verif.Tie.Loops.Semver.
+Require Verif.Tie.Vers.Code.
+Require Verif.Tie.Vers.Constraints.
+Require Verif.Tie.Vers.Printers.
+Require Verif.Tie.Vers.Pypi.
+Require Verif.Tie.Vers.Texts.
+Require Verif.Tie.Vers.Valid.
 Definition C04_tie_alpine_compareInt := Verif.Tie.Alpine.tie_alpine_compareInt.
 Print Assumptions C04_tie_alpine_compareInt.
 Definition C04_tie_alpine_compareLetters := Verif.Tie.Alpine.tie_alpine_compareLetters.
@@ -662,136 +651,66 @@ Definition C04_tie_semver_compareInt := Verif.Tie.Semver.tie_semver_compareInt.
 Print Assumptions C04_tie_semver_compareInt.
 Definition C04_tie_semver_compare := Verif.Tie.Semver.tie_semver_compare.
 Print Assumptions C04_tie_semver_compare.
-Definition C04_tie_loops_alpine_hasLeadingZero := Verif.Tie.Loops.Alpine.tie_loops_alpine_hasLeadingZero.
-Print Assumptions C04_tie_loops_alpine_hasLeadingZero.
-Definition C04_tie_hasLeadingZero_total_model := Verif.Tie.Loops.Alpine.hasLeadingZero_total_model.
-Print Assumptions C04_tie_hasLeadingZero_total_model.
-Definition C04_tie_loops_alpine_compareNumericArraysNumeric := Verif.Tie.Loops.Alpine.tie_loops_alpine_compareNumericArraysNumeric.
-Print Assumptions C04_tie_loops_alpine_compareNumericArraysNumeric.
-Definition C04_tie_compareNumericArraysNumeric_total_model := Verif.Tie.Loops.Alpine.compareNumericArraysNumeric_total_model.
-Print Assumptions C04_tie_compareNumericArraysNumeric_total_model.
-Definition C04_tie_loops_alpine_compareSuffixArrays := Verif.Tie.Loops.Alpine.tie_loops_alpine_compareSuffixArrays.
-Print Assumptions C04_tie_loops_alpine_compareSuffixArrays.
-Definition C04_tie_compareSuffixArrays_total_model := Verif.Tie.Loops.Alpine.compareSuffixArrays_total_model.
-Print Assumptions C04_tie_compareSuffixArrays_total_model.
-Definition C04_tie_loops_cargo_comparePrereleaseIdentifiers := Verif.Tie.Loops.Cargo.tie_loops_cargo_comparePrereleaseIdentifiers.
-Print Assumptions C04_tie_loops_cargo_comparePrereleaseIdentifiers.
-Definition C04_tie_comparePrereleaseIdentifiers_total_model := Verif.Tie.Loops.Cargo.comparePrereleaseIdentifiers_total_model.
-Print Assumptions C04_tie_comparePrereleaseIdentifiers_total_model.
-Definition C04_tie_cargo_compare_closed := Verif.Tie.Loops.Cargo.tie_cargo_compare_closed.
-Print Assumptions C04_tie_cargo_compare_closed.
-Definition C04_tie_loops_cargo_countVersionComponents := Verif.Tie.Loops.CargoRange.tie_loops_cargo_countVersionComponents.
-Print Assumptions C04_tie_loops_cargo_countVersionComponents.
-Definition C04_tie_loops_cargo_countVersionComponents_range := Verif.Tie.Loops.CargoRange.loops_cargo_countVersionComponents_range.
-Print Assumptions C04_tie_loops_cargo_countVersionComponents_range.
-Definition C04_tie_compare_closed := Verif.Tie.Loops.CargoRange.compare_closed.
-Print Assumptions C04_tie_compare_closed.
-Definition C04_tie_cargo_caret_closed := Verif.Tie.Loops.CargoRange.tie_cargo_caret_closed.
-Print Assumptions C04_tie_cargo_caret_closed.
-Definition C04_tie_cargo_tilde_closed := Verif.Tie.Loops.CargoRange.tie_cargo_tilde_closed.
-Print Assumptions C04_tie_cargo_tilde_closed.
-Definition C04_tie_cargo_satisfiesConstraint_closed := Verif.Tie.Loops.CargoRange.tie_cargo_satisfiesConstraint_closed.
-Print Assumptions C04_tie_cargo_satisfiesConstraint_closed.
-Definition C04_tie_cargo_satisfiesConstraint_counted := Verif.Tie.Loops.CargoRange.tie_cargo_satisfiesConstraint_counted.
-Print Assumptions C04_tie_cargo_satisfiesConstraint_counted.
-Definition C04_tie_loops_debian_compareDebianDigits := Verif.Tie.Loops.Debian.tie_loops_debian_compareDebianDigits.
-Print Assumptions C04_tie_loops_debian_compareDebianDigits.
-Definition C04_tie_loops_debian_getDebianCharWeight := Verif.Tie.Loops.Debian.tie_loops_debian_getDebianCharWeight.
-Print Assumptions C04_tie_loops_debian_getDebianCharWeight.
-Definition C04_tie_loops_debian_compareDebianNonDigits := Verif.Tie.Loops.Debian.tie_loops_debian_compareDebianNonDigits.
-Print Assumptions C04_tie_loops_debian_compareDebianNonDigits.
-Definition C04_tie_loops_debian_compareDebianNonDigits_sum := Verif.Tie.Loops.Debian.tie_loops_debian_compareDebianNonDigits_sum.
-Print Assumptions C04_tie_loops_debian_compareDebianNonDigits_sum.
-Definition C04_tie_loops_debian_compareDebianVersionString := Verif.Tie.Loops.Debian.tie_loops_debian_compareDebianVersionString.
-Print Assumptions C04_tie_loops_debian_compareDebianVersionString.
-Definition C04_tie_compareDebianVersionString_total_model := Verif.Tie.Loops.Debian.compareDebianVersionString_total_model.
-Print Assumptions C04_tie_compareDebianVersionString_total_model.
-Definition C04_tie_debian_compare_closed := Verif.Tie.Loops.Debian.tie_debian_compare_closed.
-Print Assumptions C04_tie_debian_compare_closed.
-Definition C04_tie_debian_satisfiesConstraint_closed := Verif.Tie.Loops.DebianRange.tie_debian_satisfiesConstraint_closed.
-Print Assumptions C04_tie_debian_satisfiesConstraint_closed.
-Definition C04_tie_debian_contains_closed := Verif.Tie.Loops.DebianRange.tie_debian_contains_closed.
-Print Assumptions C04_tie_debian_contains_closed.
-Definition C04_tie_loops_gem_removeTrailingZeros_exact := Verif.Tie.Loops.Gem.tie_loops_gem_removeTrailingZeros_exact.
-Print Assumptions C04_tie_loops_gem_removeTrailingZeros_exact.
-Definition C04_tie_loops_gem_removeTrailingZeros := Verif.Tie.Loops.Gem.tie_loops_gem_removeTrailingZeros.
-Print Assumptions C04_tie_loops_gem_removeTrailingZeros.
-Definition C04_tie_removeTrailingZeros_total_model := Verif.Tie.Loops.Gem.removeTrailingZeros_total_model.
-Print Assumptions C04_tie_removeTrailingZeros_total_model.
-Definition C04_tie_loops_gem_split_exact := Verif.Tie.Loops.Gem.tie_loops_gem_split_exact.
-Print Assumptions C04_tie_loops_gem_split_exact.
-Definition C04_tie_loops_gem_split := Verif.Tie.Loops.Gem.tie_loops_gem_split.
-Print Assumptions C04_tie_loops_gem_split.
-Definition C04_tie_Version_splitNumericAndPrerelease_total_model := Verif.Tie.Loops.Gem.Version_splitNumericAndPrerelease_total_model.
-Print Assumptions C04_tie_Version_splitNumericAndPrerelease_total_model.
-Definition C04_tie_loops_gem_compareSegmentArrays := Verif.Tie.Loops.Gem.tie_loops_gem_compareSegmentArrays.
-Print Assumptions C04_tie_loops_gem_compareSegmentArrays.
-Definition C04_tie_compareSegmentArrays_total_model := Verif.Tie.Loops.Gem.compareSegmentArrays_total_model.
-Print Assumptions C04_tie_compareSegmentArrays_total_model.
-Definition C04_tie_loops_gem_compare := Verif.Tie.Loops.Gem.tie_loops_gem_compare.
-Print Assumptions C04_tie_loops_gem_compare.
-Definition C04_tie_Version_Compare_total_model := Verif.Tie.Loops.Gem.Version_Compare_total_model.
-Print Assumptions C04_tie_Version_Compare_total_model.
-Definition C04_tie_loops_golang_comparePrerelease := Verif.Tie.Loops.Golang.tie_loops_golang_comparePrerelease.
-Print Assumptions C04_tie_loops_golang_comparePrerelease.
-Definition C04_tie_comparePrerelease_total_model := Verif.Tie.Loops.Golang.comparePrerelease_total_model.
-Print Assumptions C04_tie_comparePrerelease_total_model.
-Definition C04_tie_golang_compare_closed := Verif.Tie.Loops.Golang.tie_golang_compare_closed.
-Print Assumptions C04_tie_golang_compare_closed.
-Definition C04_tie_golang_matches_closed := Verif.Tie.Loops.GolangRange.tie_golang_matches_closed.
-Print Assumptions C04_tie_golang_matches_closed.
-Definition C04_tie_golang_contains_closed := Verif.Tie.Loops.GolangRange.tie_golang_contains_closed.
-Print Assumptions C04_tie_golang_contains_closed.
-Definition C04_tie_loops_maven_trimTrailingNulls_gen := Verif.Tie.Loops.Maven.tie_loops_maven_trimTrailingNulls_gen.
-Print Assumptions C04_tie_loops_maven_trimTrailingNulls_gen.
-Definition C04_tie_loops_maven_trimTrailingNulls := Verif.Tie.Loops.Maven.tie_loops_maven_trimTrailingNulls.
-Print Assumptions C04_tie_loops_maven_trimTrailingNulls.
-Definition C04_tie_trimTrailingNulls_total_model := Verif.Tie.Loops.Maven.trimTrailingNulls_total_model.
-Print Assumptions C04_tie_trimTrailingNulls_total_model.
-Definition C04_tie_loops_npm_comparePrerelease := Verif.Tie.Loops.Npm.tie_loops_npm_comparePrerelease.
-Print Assumptions C04_tie_loops_npm_comparePrerelease.
-Definition C04_tie_npm_compare_closed := Verif.Tie.Loops.Npm.tie_npm_compare_closed.
-Print Assumptions C04_tie_npm_compare_closed.
-Definition C04_tie_loops_nuget_comparePrerelease := Verif.Tie.Loops.Nuget.tie_loops_nuget_comparePrerelease.
-Print Assumptions C04_tie_loops_nuget_comparePrerelease.
-Definition C04_tie_nuget_compare_closed := Verif.Tie.Loops.Nuget.tie_nuget_compare_closed.
-Print Assumptions C04_tie_nuget_compare_closed.
-Definition C04_tie_nuget_matches_closed := Verif.Tie.Loops.NugetRange.tie_nuget_matches_closed.
-Print Assumptions C04_tie_nuget_matches_closed.
-Definition C04_tie_nuget_contains_closed := Verif.Tie.Loops.NugetRange.tie_nuget_contains_closed.
-Print Assumptions C04_tie_nuget_contains_closed.
-Definition C04_tie_nuget_contains_closed_model_num := Verif.Tie.Loops.NugetRange.tie_nuget_contains_closed_model_num.
-Print Assumptions C04_tie_nuget_contains_closed_model_num.
-Definition C04_tie_loops_pypi_compareReleaseVersions := Verif.Tie.Loops.Pypi.tie_loops_pypi_compareReleaseVersions.
-Print Assumptions C04_tie_loops_pypi_compareReleaseVersions.
-Definition C04_tie_compareReleaseVersions_total_model := Verif.Tie.Loops.Pypi.compareReleaseVersions_total_model.
-Print Assumptions C04_tie_compareReleaseVersions_total_model.
-Definition C04_tie_pypi_compare_closed := Verif.Tie.Loops.Pypi.tie_pypi_compare_closed.
-Print Assumptions C04_tie_pypi_compare_closed.
-Definition C04_tie_pypi_matches_closed := Verif.Tie.Loops.PypiRange.tie_pypi_matches_closed.
-Print Assumptions C04_tie_pypi_matches_closed.
-Definition C04_tie_pypi_contains_closed := Verif.Tie.Loops.PypiRange.tie_pypi_contains_closed.
-Print Assumptions C04_tie_pypi_contains_closed.
-Definition C04_tie_loops_rpm_isSeparator := Verif.Tie.Loops.Rpm.tie_loops_rpm_isSeparator.
-Print Assumptions C04_tie_loops_rpm_isSeparator.
-Definition C04_tie_loops_rpm_isSeparator_rune := Verif.Tie.Loops.Rpm.tie_loops_rpm_isSeparator_rune.
-Print Assumptions C04_tie_loops_rpm_isSeparator_rune.
-Definition C04_tie_loops_rpm_compareRPMDigits := Verif.Tie.Loops.Rpm.tie_loops_rpm_compareRPMDigits.
-Print Assumptions C04_tie_loops_rpm_compareRPMDigits.
-Definition C04_tie_rpm_compareRPMNonDigits := Verif.Tie.Loops.Rpm.tie_rpm_compareRPMNonDigits.
-Print Assumptions C04_tie_rpm_compareRPMNonDigits.
-Definition C04_tie_loops_rpm_compareRPMVersionString := Verif.Tie.Loops.Rpm.tie_loops_rpm_compareRPMVersionString.
-Print Assumptions C04_tie_loops_rpm_compareRPMVersionString.
-Definition C04_tie_compareRPMVersionString_total_model := Verif.Tie.Loops.Rpm.compareRPMVersionString_total_model.
-Print Assumptions C04_tie_compareRPMVersionString_total_model.
-Definition C04_tie_rpm_compare_closed := Verif.Tie.Loops.Rpm.tie_rpm_compare_closed.
-Print Assumptions C04_tie_rpm_compare_closed.
-Definition C04_tie_rpm_satisfiesRPMConstraint_closed := Verif.Tie.Loops.RpmRange.tie_rpm_satisfiesRPMConstraint_closed.
-Print Assumptions C04_tie_rpm_satisfiesRPMConstraint_closed.
-Definition C04_tie_rpm_contains_closed := Verif.Tie.Loops.RpmRange.tie_rpm_contains_closed.
-Print Assumptions C04_tie_rpm_contains_closed.
-Definition C04_tie_loops_semver_comparePrerelease := Verif.Tie.Loops.Semver.tie_loops_semver_comparePrerelease.
-Print Assumptions C04_tie_loops_semver_comparePrerelease.
-Definition C04_tie_semver_compare_closed := Verif.Tie.Loops.Semver.tie_semver_compare_closed.
-Print Assumptions C04_tie_semver_compare_closed.
+Definition C04_tie_shouldMergeConstraints_tie := Verif.Tie.Vers.Code.shouldMergeConstraints_tie.
+Print Assumptions C04_tie_shouldMergeConstraints_tie.
+Definition C04_tie_ensureVPrefix_tie := Verif.Tie.Vers.Code.ensureVPrefix_tie.
+Print Assumptions C04_tie_ensureVPrefix_tie.
+Definition C04_tie_parseConstraint_tie := Verif.Tie.Vers.Constraints.parseConstraint_tie.
+Print Assumptions C04_tie_parseConstraint_tie.
+Definition C04_tie_parseConstraint_finished := Verif.Tie.Vers.Constraints.parseConstraint_finished.
+Print Assumptions C04_tie_parseConstraint_finished.
+Definition C04_tie_parseConstraints_tie := Verif.Tie.Vers.Constraints.parseConstraints_tie.
+Print Assumptions C04_tie_parseConstraints_tie.
+Definition C04_tie_parseConstraints_finished := Verif.Tie.Vers.Constraints.parseConstraints_finished.
+Print Assumptions C04_tie_parseConstraints_finished.
+Definition C04_tie_parseConstraints_normalize := Verif.Tie.Vers.Constraints.parseConstraints_normalize.
+Print Assumptions C04_tie_parseConstraints_normalize.
+Definition C04_tie_alpine_printer_tie := Verif.Tie.Vers.Printers.alpine_printer_tie.
+Print Assumptions C04_tie_alpine_printer_tie.
+Definition C04_tie_cargo_printer_tie := Verif.Tie.Vers.Printers.cargo_printer_tie.
+Print Assumptions C04_tie_cargo_printer_tie.
+Definition C04_tie_debian_printer_tie := Verif.Tie.Vers.Printers.debian_printer_tie.
+Print Assumptions C04_tie_debian_printer_tie.
+Definition C04_tie_gem_printer_tie := Verif.Tie.Vers.Printers.gem_printer_tie.
+Print Assumptions C04_tie_gem_printer_tie.
+Definition C04_tie_golang_printer_tie := Verif.Tie.Vers.Printers.golang_printer_tie.
+Print Assumptions C04_tie_golang_printer_tie.
+Definition C04_tie_maven_printer_tie := Verif.Tie.Vers.Printers.maven_printer_tie.
+Print Assumptions C04_tie_maven_printer_tie.
+Definition C04_tie_npm_printer_tie := Verif.Tie.Vers.Printers.npm_printer_tie.
+Print Assumptions C04_tie_npm_printer_tie.
+Definition C04_tie_nuget_printer_tie := Verif.Tie.Vers.Printers.nuget_printer_tie.
+Print Assumptions C04_tie_nuget_printer_tie.
+Definition C04_tie_pypi_printer_tie := Verif.Tie.Vers.Printers.pypi_printer_tie.
+Print Assumptions C04_tie_pypi_printer_tie.
+Definition C04_tie_rpm_printer_tie := Verif.Tie.Vers.Printers.rpm_printer_tie.
+Print Assumptions C04_tie_rpm_printer_tie.
+Definition C04_tie_semver_printer_tie := Verif.Tie.Vers.Printers.semver_printer_tie.
+Print Assumptions C04_tie_semver_printer_tie.
+Definition C04_tie_printers_keys := Verif.Tie.Vers.Printers.printers_keys.
+Print Assumptions C04_tie_printers_keys.
+Definition C04_tie_printers_match_style_table := Verif.Tie.Vers.Printers.printers_match_style_table.
+Print Assumptions C04_tie_printers_match_style_table.
+Definition C04_tie_printers_on_model_interval := Verif.Tie.Vers.Printers.printers_on_model_interval.
+Print Assumptions C04_tie_printers_on_model_interval.
+Definition C04_tie_containsPrereleaseMarkers_tie := Verif.Tie.Vers.Pypi.containsPrereleaseMarkers_tie.
+Print Assumptions C04_tie_containsPrereleaseMarkers_tie.
+Definition C04_tie_containsPrereleaseMarkers_finished := Verif.Tie.Vers.Pypi.containsPrereleaseMarkers_finished.
+Print Assumptions C04_tie_containsPrereleaseMarkers_finished.
+Definition C04_tie_constraintsIncludePrerelease_finished := Verif.Tie.Vers.Pypi.constraintsIncludePrerelease_finished.
+Print Assumptions C04_tie_constraintsIncludePrerelease_finished.
+Definition C04_tie_constraintsIncludePrerelease_tie := Verif.Tie.Vers.Pypi.constraintsIncludePrerelease_tie.
+Print Assumptions C04_tie_constraintsIncludePrerelease_tie.
+Definition C04_tie_printers_texts := Verif.Tie.Vers.Texts.printers_texts.
+Print Assumptions C04_tie_printers_texts.
+Definition C04_tie_printers_texts_normalize := Verif.Tie.Vers.Texts.printers_texts_normalize.
+Print Assumptions C04_tie_printers_texts_normalize.
+Definition C04_tie_valid_tie := Verif.Tie.Vers.Valid.valid_tie.
+Print Assumptions C04_tie_valid_tie.
+Definition C04_tie_valid_finished := Verif.Tie.Vers.Valid.valid_finished.
+Print Assumptions C04_tie_valid_finished.
+Definition C04_tie_scheme_tie := Verif.Tie.Vers.Valid.scheme_tie.
+Print Assumptions C04_tie_scheme_tie.
+Definition C04_tie_scheme_finished := Verif.Tie.Vers.Valid.scheme_finished.
+Print Assumptions C04_tie_scheme_finished.
 (* ====== ties to the source: END ====== *)
